@@ -13,7 +13,8 @@ LEVEL_TEXT = ('Static decision by an Andersen-style points-to analysis of the wh
               'reach a process-wide singleton (an object allocated in a parameter default, a module body or a class '
               'body); no global/module/class attribute is written after import; every component a Solver holds is '
               'allocated per Solver and held by no process-wide object; the shared inputs (problem, parameters) are never written by the library; Solve '
-              'returns the solver\'s own Solution.')
+              'returns the solver\'s own Solution; a change of process-wide interpreter / numpy / warnings state is '
+              'undone on every exit of the routine that made it.')
 EXPLANATION = ('Two solver instances can only interfere through an object both can reach. Objects allocated inside '
                'functions are per call; the only objects shared by construction are the singletons enumerated by the '
                'allocation-site abstraction. The check proves that every one of the mutation sites of the library '
